@@ -248,6 +248,10 @@ func C04(c *Ctx) {
 	}
 	r.Floor("R04.2", "tx record writes in TransactionManager", nW, 4)
 
+	// the timeout edge is applied to whatever the timeout list holds: the list invariant is part of C04
+	r.Rule("R04.4", "timeout-list invariant (shared with C06): every accepted receipt removes its request from the list of the recorded height; the stored list stays readable; per-block accumulators extend the element they looked up. Otherwise a finished transaction is overwritten with BEGIN_ROLLBACK at its timeout height.")
+	c.timeoutListInvariant("R04.4", "R04.4", "R04.4")
+
 	// executor side
 	if str := c.fn("R04.2", execPrefix+"setTimeoutRollback"); str != nil {
 		gl := c.P.Fn(execPrefix + "getTimeoutList")
